@@ -30,6 +30,11 @@ CLAIMED = {
         text="Exploration: >1e5 generated points per quick run, concentrated by construction on the thin regions where a violation could hide (maximisers, Garland's cusps k*pi/60, DoubleSine's tmax+-2^-j, DifficultFunc's 0.5+-e^-m, log-scale neighbourhoods of the origin, +-8 ulp neighbours, box end points), f(x) <= fmax with zero tolerance wherever IEEE rounding monotonicity makes the bound exact, attainment at the documented maximisers, purity, ValueError on wrong-length points. A supremum over a continuum is attacked, not enclosed.",
         note="Ackley's bound uses a tolerance of 8 ulp(22.7); DoubleSine parameters restricted to the property's quantifier; perturbed variants are seeded through np.random.seed before construction.",
         ref="4/C17"),
+    "C04": dict(
+        technique="property-based testing (Hypothesis) with a harness-kept ledger: per-round before/after snapshots of the evidence of every cell, arm and score; expected credit set per algorithm; whole-tree agreement with the history after every round",
+        text="Exploration: the evidence (count, reward list, mean, variance) of every cell ever created in every partition of a run is snapshotted around pull and receive_reward of every round; the set that changed must equal the credit set the property prescribes, each by one appended reward, and the tree reachable from each root must agree with the ledger (counts, lists, fsum means, floored VHCT variance, count sums). Recording subclasses of the base learners identify which learner served a POO/GPO round.",
+        note="Means compared to rel. 1e-9 (variance 1e-7). StroquOOL's documented candidate reset is allowed once per candidate; its rounds after it finished are skipped. VROOM's drawn cell is read from curr_node.",
+        ref="4/C04"),
 }
 
 NOT_YET = "check not built yet in this round (planned in DESIGN.md section 4); property-based testing applies"
